@@ -67,6 +67,11 @@ def build_hank(
     - The 'YfYp' method constructs separate future and past data matrices without combining them into a Hankel matrix.
     - When `calc_unc` is True, the uncertainty matrix `T` is calculated using the bootstrap method, which quantifies the uncertainty of the Hankel matrix elements.
     """
+    # records stored as integers (e.g. A/D counts): the correlations must not be accumulated in the integer dtype
+    if np.issubdtype(np.asarray(Y).dtype, np.integer):
+        Y = np.asarray(Y, dtype=float)
+    if np.issubdtype(np.asarray(Yref).dtype, np.integer):
+        Yref = np.asarray(Yref, dtype=float)
     Ndat = Y.shape[1]  # number of data points
     l = Y.shape[0]  # number of chaiiels  # noqa E741 (ambiguous variable name 'l')
     r = Yref.shape[0]  # number of reference chaiiels
